@@ -103,3 +103,9 @@ package dns
 //@   opt no-safety
 //@   exit once: same(ret0, callres("readTCP", 0)) && ret1 == callres("readTCP", 1)
 //@   callsite "readTCP" first: !called("readTCP")
+
+// every algorithm whose keys Generate makes and PrivateKeyString exports is read back: ErrAlg is for none of
+// RSASHA1 (5), RSASHA1-NSEC3-SHA1 (7), RSASHA256 (8), RSASHA512 (10), ECDSA P-256/P-384 (13, 14) and Ed25519 (15)
+//@ func (*DNSKEY).ReadPrivateKey [C17]
+//@   opt no-safety
+//@   assert at "return nil, ErrAlg" badalg: algo % 256 != 5 && algo % 256 != 7 && algo % 256 != 8 && algo % 256 != 10 && algo % 256 != 13 && algo % 256 != 14 && algo % 256 != 15
